@@ -16,6 +16,7 @@ func init() {
 		Explain: "Decides the ordering and guard clauses that make a graceful leave survive restarts: Serf.Leave notifies the snapshotter (when one exists) before the leave is applied or broadcast; the snapshotter's leave case sets leaving, clears the alive set exactly on the !rejoinAfterLeave edge BEFORE appending the leave record (a compaction inside that append serialises the in-memory set), then flushes and syncs; all recorders are behind !leaving; the alive set has a closed list of writers; replay resets state on a leave line exactly when rejoin-after-leave is off; compaction serialises the in-memory alive set. Events racing the leave notification in the channel are not covered.",
 		Run:     runC13,
 		Mutants: []Mutant{
+			{Name: "replay-stops-at-leave", File: "serf/snapshot.go", Func: "func (s *Snapshotter) replay(", Old: "\t\t\ts.lastQueryClock = 0\n", New: "\t\t\ts.lastQueryClock = 0\n\t\t\tbreak\n", Expect: "R7"},
 			{Name: "compact-before-leave-marker", File: "serf/snapshot.go", Func: "func (s *Snapshotter) appendLine(", Old: "\tn, err := s.buffered.WriteString(l)\n", New: "\tif s.offset+int64(len(l)) > s.snapshotMaxSize() {\n\t\tif err := s.compact(); err != nil {\n\t\t\treturn err\n\t\t}\n\t}\n\tn, err := s.buffered.WriteString(l)\n", Expect: "R6|appendLine"},
 			{Name: "clear-after-append", File: "serf/snapshot.go", Func: "func (s *Snapshotter) stream(", Old: "\t\t\tif !s.rejoinAfterLeave {\n\t\t\t\ts.aliveNodes = make(map[string]string)\n\t\t\t}\n\t\t\ts.tryAppend(\"leave\\n\")\n", New: "\t\t\ts.tryAppend(\"leave\\n\")\n\t\t\tif !s.rejoinAfterLeave {\n\t\t\t\ts.aliveNodes = make(map[string]string)\n\t\t\t}\n", Expect: "R2"},
 			{Name: "no-sync-after-leave", File: "serf/snapshot.go", Func: "func (s *Snapshotter) stream(", Old: "\t\t\tif err := s.fh.Sync(); err != nil {\n\t\t\t\ts.logger.Printf(\"[ERR] serf: failed to sync leave to snapshot: %v\", err)\n\t\t\t}\n", New: "", Expect: "R2"},
@@ -31,6 +32,7 @@ func init() {
 		Explain: "Decides the bookkeeping invariant structurally on every path that changes a member's status: storing Failed/Left is paired with an append to the matching list; leaving Failed/Left is paired with removal from the matching list unless an edge establishes the old status was different; all under the memberLock write section; the lists and the member map have a closed set of writers; eraseNode deletes the map entry and emits exactly one reap event, and its callers removed the member from its list first; Stats reports len() of the two lists under the lock; the reap scan visits each element once, uses strict '>' against the configured timeout as adjusted per member from the configured base. Wall-clock behaviour is not covered.",
 		Run:     runC15,
 		Mutants: []Mutant{
+			{Name: "no-reap-event-without-coordinates", File: "serf/serf.go", Func: "func (s *Serf) eraseNode(", Old: "\tif !s.config.DisableCoordinates {\n", New: "\tif s.config.DisableCoordinates {\n\t\treturn\n\t}\n\t{\n", Expect: "R3|eraseNode:reap-event-always"},
 			{Name: "prune-sleeps-unlocked", File: "serf/serf.go", Func: "func (s *Serf) handlePrune(", Old: "\t\ttime.Sleep(s.config.BroadcastTimeout + s.config.LeavePropagateDelay)\n", New: "\t\ts.memberLock.Unlock()\n\t\ttime.Sleep(s.config.BroadcastTimeout + s.config.LeavePropagateDelay)\n\t\ts.memberLock.Lock()\n", Expect: "R6"},
 			{Name: "rename-locals", Equivalent: true, Regexp: true, File: "serf/serf.go", Func: "func (s *Serf) reap(", Old: `\b(n|m|memberTimeout)\b`, New: "${1}Renamed"},
 			{Name: "failed-not-listed", File: "serf/serf.go", Func: "func (s *Serf) handleNodeLeave(", Old: "\t\ts.failedMembers = append(s.failedMembers, member)\n", New: "", Expect: "R1"},
@@ -67,6 +69,8 @@ func runC13(c *an.Ctx) {
 	c.Rule("R3 recorders are called only behind !leaving and only from the snapshot goroutine; writers of aliveNodes are {constructor, replay, leave case, member recorder}")
 	c.Rule("R4 replay: the 'leave' line resets aliveNodes and clocks exactly on !rejoinAfterLeave")
 	c.Rule("R5 compaction serialises the in-memory aliveNodes")
+	c.Rule("R7 (shared with C11) replay reads every line: what was recorded after an earlier leave marker (the node was restarted and ran on) is restored as well")
+	replayEveryLine(c, "R7")
 	c.Rule("R6 (shared with C12) the leave marker, like every line, is buffered before any compaction attempt and unconditionally")
 	appendOrderRule(c, "R6")
 	// R1
@@ -388,6 +392,12 @@ func runC15(c *an.Ctx) {
 			}
 		}
 		c.Add(len(sends) == 1 && okType && !inLoop, "R3", "eraseNode:one-reap-event", er, "eraseNode emits exactly one reap event (one send site, not in a loop)", "send enumeration")
+		if len(sends) == 1 {
+			// ... and on every path: only "no event channel configured" may skip it
+			noCh := an.EdgesImplying(er, an.Cmp{L: "$0.config.EventCh", Op: "==", R: "c:nil"})
+			skip := an.ReachFrom(er, nil, &an.Cut{Edges: noCh, Instrs: func(in ssa.Instruction) bool { return in == sends[0] }}, an.IsExit)
+			c.Add(skip == nil, "R3", "eraseNode:reap-event-always", sends[0], "every erased member gets its reap event: no path through eraseNode skips the send except 'no event channel configured'", "reach/cut must-pass")
+		}
 		// callers
 		for _, site := range locks.Callers(er) {
 			caller := an.FuncName(site.Parent())
@@ -598,7 +608,7 @@ func runC16(c *an.Ctx) {
 				c.Add(later == nil, "R4", an.FuncName(f)+":nothing-after-reap", er, "no member event is sent after the member was erased (the reap stays the last event the application sees for it)", "reachability from the erasing call")
 			}
 		}
-		c.Floor("R4", "erasing calls", n4, 4)
+		c.Floor("R4", "erasing calls", n4, 2)
 	}
 	locks := an.NewLocks(c.P)
 	n := 0
